@@ -1037,7 +1037,7 @@ package websocket
 
 //@ func (*Dialer).DialContext
 //@ alias req := arg0@call:Write#1
-//@ alias netConn := arg1@call:Write#1
+//@ alias netConn := arg0@call:SetDeadline#1
 //@ tags C07 C14 C15 C16 C17 C18
 //@ results conn resp err
 //@ requires imp(d != nil, d.ReadBufferSize <= 1099511627776 && d.WriteBufferSize <= 1099511627776)
